@@ -351,6 +351,9 @@ class AsgiRun:
         self.disconnected = False
         self.zerocopy_events = 0
         self.scope: Dict[str, Any] = {}
+        self.disconnected_at: Optional[float] = None
+        self.send_times: List[float] = []
+        self.returned_at: Optional[float] = None
 
     @property
     def body(self) -> bytes:
@@ -493,6 +496,7 @@ async def run_asgi(
     translate_http_exception: bool = True,
     send_delay: float = 0.0,
     on_send: Optional[Callable[[AsgiRun, Dict[str, Any]], None]] = None,
+    disconnect_at: Optional[float] = None,
 ) -> AsgiRun:
     """Drive one ASGI http application call.
 
@@ -518,6 +522,14 @@ async def run_asgi(
     if disconnect_after_sends == 0:
         gone.set()
         run.disconnected = True
+    if disconnect_at is not None:
+        # the client goes away at a (virtual) instant
+        def _go() -> None:
+            run.disconnected = True
+            run.disconnected_at = asyncio.get_running_loop().time()
+            gone.set()
+
+        asyncio.get_running_loop().call_later(disconnect_at, _go)
 
     async def receive() -> Dict[str, Any]:
         nonlocal pos
@@ -540,6 +552,7 @@ async def run_asgi(
         if send_delay:
             await asyncio.sleep(send_delay)
         run.sends += 1
+        run.send_times.append(asyncio.get_running_loop().time())
         if not run.disconnected:
             msg = dict(message) if isinstance(message, dict) else message
             if isinstance(msg, dict) and "headers" in msg:
@@ -588,6 +601,7 @@ async def run_asgi(
         raise
     except BaseException as exc:  # noqa: BLE001
         run.exc = exc
+    run.returned_at = asyncio.get_running_loop().time()
     return run
 
 
